@@ -1,6 +1,7 @@
 import Nv.Proofs.C20Byte
 import Nv.Proofs.C20B64
 import Nv.Proofs.C20Dur
+import Nv.Proofs.C20Time
 /-!
 C20 — property theorems for the `tex` scalar wrappers (model `Nv.Model.C20`, reference `Nv.Spec.C20`).
 Every statement quantifies over all byte strings / all values of the type; the configuration `c`
@@ -180,9 +181,139 @@ theorem hex_roundtrip_i16 (v : Int) (hlo : -(2 ^ 63 : Int) ≤ v) (hhi : v < 2 ^
 theorem hex_roundtrip_i32 (v : Int) (hlo : -(2 ^ 63 : Int) ≤ v) (hhi : v < 2 ^ 63) : parseInt 32 64 (fmtInt 32 v) = .ok v :=
   parseInt_fmtInt 32 (by omega) (by omega) v hlo hhi
 
-/-- SQL forms: `Scan(Value(x)) = x` (integer instants; `time.Unix` / `Unix()` are the modelled library) -/
-theorem sql_unixnano_roundtrip (v : Int) : scanTs (.i64 v) = v := rfl
-theorem sql_stamp_roundtrip (old v : Int) : scanStamp old (.time v) = v := rfl
+/-- hex / base-32 parse, unsigned: digits of the base, exact value, below 2^64 -/
+theorem hex_parse_exact_u (base : Nat) (s : Bytes) (n : Nat) (h : parseUint base 64 s = .ok n) :
+    s ≠ [] ∧ BaseDigits base s ∧ baseVal base 0 s = n ∧ n < 2 ^ 64 :=
+  parseUint_ok base 64 h
+
+/-! ### the time types on genuine instants (seconds, nanoseconds): the exact round-trip domain -/
+
+/-- JsNanoTime round-trips an instant **iff** its `UnixNano` fits int64 (1678-09-21 … 2262-04-11).
+    Outside that range `MarshalJSON` prints a wrapped number and `UnmarshalJSON` yields another instant, nil error. -/
+theorem nanotime_roundtrip_iff (c : Cfg) (hc : Proved c) (t : Time) (hv : t.nsec < 1000000000) :
+    decodeNanoTime c.nanoTime (encodeNanoTime t) = .ok t ↔ t.FitsNano := by
+  have hr := wrapI64_range (t.sec * 1000000000 + t.nsec)
+  have hd : decodeInt c.nanoTime (encodeInt t.unixNano) = .ok t.unixNano :=
+    nanotime_roundtrip c hc _ hr.1 hr.2
+  unfold decodeNanoTime encodeNanoTime
+  rw [mapRes_ok _ hd]
+  constructor
+  · intro h
+    have := timeUnix_nano_inv (Res.ok.inj h)
+    unfold Time.unixNano at this
+    exact (wrapI64_eq_iff _).1 this
+  · intro hf
+    have : t.unixNano = t.sec * 1000000000 + t.nsec := wrapI64_id hf.1 hf.2
+    rw [this, timeUnix_nano t hv]
+
+theorem nanotime_roundtrip_time (c : Cfg) (hc : Proved c) (t : Time) (hv : t.nsec < 1000000000) (hf : t.FitsNano) :
+    decodeNanoTime c.nanoTime (encodeNanoTime t) = .ok t :=
+  (nanotime_roundtrip_iff c hc t hv).2 hf
+
+/-- JsUnixTime keeps the second and drops the nanoseconds (second-resolution format), for every instant -/
+theorem unixtime_roundtrip_time (c : Cfg) (hc : Proved c) (t : Time) (hlo : -(2 ^ 63 : Int) ≤ t.sec) (hhi : t.sec < 2 ^ 63) :
+    decodeUnixTime c.unixTime (encodeUnixTime t) = .ok ⟨t.sec, 0⟩ := by
+  unfold decodeUnixTime encodeUnixTime
+  rw [mapRes_ok _ (unixtime_roundtrip c hc t.sec hlo hhi), timeUnix_sec]
+
+/-- … hence exactly the instants on a whole second round-trip -/
+theorem unixtime_roundtrip_whole_second (c : Cfg) (hc : Proved c) (t : Time) (hn : t.nsec = 0)
+    (hlo : -(2 ^ 63 : Int) ≤ t.sec) (hhi : t.sec < 2 ^ 63) :
+    decodeUnixTime c.unixTime (encodeUnixTime t) = .ok t := by
+  rw [unixtime_roundtrip_time c hc t hlo hhi]
+  cases t; simp only at hn; subst hn; rfl
+
+/-! ### SQL forms -/
+
+/-- UnixNano2Time: `Scan(Value(t)) = t` iff the instant fits int64 nanoseconds (either scanner shape) -/
+theorem sql_unixnano_roundtrip_iff (sh : ScanShape) (hsh : sh ≠ .unknown) (t : Time) (hv : t.nsec < 1000000000) :
+    scanNano sh (.i64 t.unixNano) = .ok t ↔ t.FitsNano := by
+  have hs : scanInt sh (.i64 t.unixNano) = .ok t.unixNano := by
+    cases sh with
+    | unknown => exact absurd rfl hsh
+    | legacy => rfl
+    | strict => rfl
+  unfold scanNano
+  rw [mapRes_ok _ hs]
+  constructor
+  · intro h
+    have := timeUnix_nano_inv (Res.ok.inj h)
+    unfold Time.unixNano at this
+    exact (wrapI64_eq_iff _).1 this
+  · intro hf
+    have : t.unixNano = t.sec * 1000000000 + t.nsec := wrapI64_id hf.1 hf.2
+    rw [this, timeUnix_nano t hv]
+
+/-- Unix2Time: `Scan(Value(t))` is `t` truncated to the second -/
+theorem sql_unix_roundtrip (sh : ScanShape) (hsh : sh ≠ .unknown) (t : Time) : scanUnix sh (.i64 t.sec) = .ok ⟨t.sec, 0⟩ := by
+  cases sh with
+  | unknown => exact absurd rfl hsh
+  | legacy => simp [scanUnix, scanInt, mapRes, timeUnix]
+  | strict => simp [scanUnix, scanInt, mapRes, timeUnix]
+
+/-- UnixStamp / SQLTime2Unix: `Scan(Value(v)) = v` -/
+theorem sql_stamp_roundtrip (sh : StampScan) (hsh : sh ≠ .unknown) (old v : Int) :
+    scanStamp sh old (.time (timeUnix v 0)) = .ok v := by
+  cases sh with
+  | unknown => exact absurd rfl hsh
+  | legacy => simp [scanStamp, timeUnix]
+  | strict => simp [scanStamp, timeUnix]
+
+/-- the repaired scanner: a result is exactly what the driver value denotes (integers as they are, decimal
+    text its exact value, NULL 0) — never a silent zero, never a wrapped uint64 -/
+theorem scan_exact_or_error (v : SqlVal) (ts : Int) (h : scanInt .strict v = .ok ts) : sqlDenotes v ts := by
+  cases v with
+  | i32 x => simpa [scanInt, sqlDenotes] using h.symm
+  | i64 x => simpa [scanInt, sqlDenotes] using h.symm
+  | int x => simpa [scanInt, sqlDenotes] using h.symm
+  | u32 x => simpa [scanInt, sqlDenotes] using h.symm
+  | u64 x =>
+    simp only [scanInt] at h
+    split at h
+    · cases h
+    · simpa [sqlDenotes] using h.symm
+  | uint x =>
+    simp only [scanInt] at h
+    split at h
+    · cases h
+    · simpa [sqlDenotes] using h.symm
+  | f64 w => simp [scanInt] at h
+  | bool b => simp [scanInt] at h
+  | bytes s => exact (denotesCore_of_parseInt (bits := 64) (by simpa [scanInt] using h)).1
+  | str s => exact (denotesCore_of_parseInt (bits := 64) (by simpa [scanInt] using h)).1
+  | time t => simp [scanInt] at h
+  | null => simpa [scanInt, sqlDenotes] using h.symm
+
+/-- … and whatever denotes no integer (float, bool, time, non-numeric text) is refused with an error -/
+theorem scan_refuses_unsupported (v : SqlVal) (hno : ∀ ts, ¬ sqlDenotes v ts) : ∃ e, scanInt .strict v = .err e := by
+  have text : ∀ s : Bytes, (∀ ts, ¬ denotesCore s ts) → ∃ e, parseInt 10 64 s = .err e := by
+    intro s hs
+    cases hp : parseInt 10 64 s with
+    | ok ts => exact absurd (denotesCore_of_parseInt (bits := 64) hp).1 (hs ts)
+    | err e => exact ⟨e, rfl⟩
+    | panic =>
+      have := runParser_no_panic .atoi s
+      exact absurd hp (by simpa [runParser, atoi] using this)
+  cases v with
+  | f64 w => exact ⟨.other, rfl⟩
+  | bool b => exact ⟨.other, rfl⟩
+  | time t => exact ⟨.other, rfl⟩
+  | i32 x => exact absurd rfl (hno x)
+  | i64 x => exact absurd rfl (hno x)
+  | int x => exact absurd rfl (hno x)
+  | u32 x => exact absurd rfl (hno x)
+  | u64 x => exact absurd rfl (hno x)
+  | uint x => exact absurd rfl (hno x)
+  | null => exact absurd rfl (hno 0)
+  | bytes s => exact text s hno
+  | str s => exact text s hno
+
+/-- UnixStamp / SQLTime2Unix repaired: only a time sets the stamp, only NULL keeps it -/
+theorem stamp_scan_exact_or_error (old r : Int) (v : SqlVal) (h : scanStamp .strict old v = .ok r) :
+    (∃ t, v = .time t ∧ r = t.sec) ∨ (v = .null ∧ r = old) := by
+  cases v <;> simp [scanStamp] at h
+  · rename_i t; exact Or.inl ⟨t, rfl, h.symm⟩
+  · exact Or.inr ⟨rfl, h.symm⟩
 
 /-- `time.ParseDuration(d.String()) = d` for every int64 duration — zero, negative and the extremes included
     (on the hand-written models of the two library functions, which the correspondence validates) -/
@@ -195,7 +326,7 @@ theorem dur_roundtrip (c : Cfg) (hc : Proved c) (d : Int) (hlo : -(2 ^ 63 : Int)
     decodeDur c.dur (encodeDur d) = .ok d := by
   have hk : c.dur.kind ≠ .unknown := by rcases hc.2.2.2.2.2.2.1 with h | h <;> simp [h]
   have hp : c.dur.parser = .parseDuration := hc.2.2.2.2.2.2.2.2.2.2.2.2.2.1
-  have hm : c.dur.minLen ≤ 4 := hc.2.2.2.2.2.2.2.2.2.2.2.2.2.2.2.2.2.2.2.2.2
+  have hm : c.dur.minLen ≤ 4 := hc.2.2.2.2.2.2.2.2.2.2.2.2.2.2.2.2.2.2.2.2.2.1
   have hlen := durString_length d hlo hhi
   unfold decodeDur encodeDur
   simp only [quote, hp, ne_eq, not_true_eq_false, if_false]
@@ -237,53 +368,6 @@ theorem unmarshal_range_quoted (w : Wrap) (hk : w.kind ≠ .unknown) (hp : w.par
   simp only [hne, Bool.and_false, Bool.false_eq_true, if_false, hp, runParser]
   exact parse_int_never_wraps s v hd hout
 
-theorem runParser_no_panic (p : Parser) (s : Bytes) : runParser p s ≠ .panic := by
-  have hu : ∀ base bits n t, parseUintLoop base bits n t ≠ .panic := by
-    intro base bits n t
-    induction t generalizing n with
-    | nil => simp [parseUintLoop]
-    | cons c cs ih =>
-      simp only [parseUintLoop]
-      split
-      · simp
-      · split
-        · simp
-        · split
-          · simp
-          · exact ih _
-  have hpu : ∀ base bits t, parseUint base bits t ≠ .panic := by
-    intro base bits t
-    cases t with
-    | nil => simp [parseUint]
-    | cons c cs => simp only [parseUint]; exact hu _ _ _ _
-  have hs : ∀ bits neg (r : Res Nat), r ≠ .panic → signedOf bits neg r ≠ .panic := by
-    intro bits neg r hr
-    cases r with
-    | panic => exact absurd rfl hr
-    | err e => simp [signedOf]
-    | ok un => simp only [signedOf]; split <;> split <;> simp
-  cases p with
-  | atoi =>
-    simp only [runParser, atoi]
-    cases s with
-    | nil => simp [parseInt]
-    | cons c cs =>
-      simp only [parseInt]
-      split
-      · exact hs _ _ _ (hpu _ _ _)
-      · split
-        · exact hs _ _ _ (hpu _ _ _)
-        · exact hs _ _ _ (hpu _ _ _)
-  | parseUint64 =>
-    simp only [runParser]
-    cases h : parseUint 10 64 s with
-    | panic => exact absurd h (hpu _ _ _)
-    | err e => simp [toIntRes]
-    | ok n => simp [toIntRes]
-  | parseDuration => simp [runParser]
-  | fromString => simp [runParser]
-  | unknown => simp [runParser]
-
 /-- a wrapper that checks its quotes and rejects the empty input panics on exactly one input: the lone
     quote character (`b[1:0]`; today's JsInt64) — which no JSON library ever passes -/
 theorem panic_only_lone_quote (w : Wrap) (hw : w.Checked) (hm : 1 ≤ w.minLen) (b : Bytes)
@@ -321,9 +405,15 @@ theorem panic_only_lone_quote (w : Wrap) (hw : w.Checked) (hm : 1 ≤ w.minLen) 
 
 /-- JsInt64 as it is today: the lone quote panics (`b[1:0]`), and nothing else does -/
 theorem i64_lone_quote_panics_today : decodeInt Cfg.today.i64 [34] = .panic := by decide
-theorem i64_panics_only_on_lone_quote (c : Cfg) (hc : Proved c) (hm : 1 ≤ c.i64.minLen) (b : Bytes)
-    (h : decodeInt c.i64 b = .panic) : b = [34] :=
-  panic_only_lone_quote _ hc.1 hm b h
+/-- inside `Proved` no integer wrapper panics on any input except (for the JsInt64 shape) the lone quote -/
+theorem proved_panics_only_on_lone_quote (c : Cfg) (hc : Proved c) (b : Bytes) :
+    (decodeInt c.i64 b = .panic → b = [34]) ∧ (decodeInt c.u64 b = .panic → b = [34]) ∧
+    (decodeInt c.unixTime b = .panic → b = [34]) ∧ (decodeInt c.nanoTime b = .panic → b = [34]) ∧
+    (decodeInt c.stamp b = .panic → b = [34]) := by
+  have hm := hc.2.2.2.2.2.2.2.2.2.2.2.2.2.2.2.2.2.2.2.2.2.2.2.2
+  exact ⟨panic_only_lone_quote _ hc.1 hm.1 b, panic_only_lone_quote _ hc.2.1 hm.2.1 b,
+    panic_only_lone_quote _ hc.2.2.2.1 hm.2.2.1 b, panic_only_lone_quote _ hc.2.2.2.2.1 hm.2.2.2.1 b,
+    panic_only_lone_quote _ hc.2.2.2.2.2.1 hm.2.2.2.2 b⟩
 
 /-! ### non-vacuity -/
 
@@ -337,6 +427,11 @@ example : decodeBytes Cfg.repaired.byte .rangeChecked [34, 51, 48, 48, 47, 45, 4
 example : decodeBytes Cfg.repaired.byte .rangeChecked [34, 55, 47, 50, 53, 53, 34] = .ok [7, 255] := by decide    -- "7/255"
 example : durString (-90000000001) = [45, 49, 109, 51, 48, 46, 48, 48, 48, 48, 48, 48, 48, 48, 49, 115] := by decide  -- -1m30.000000001s
 example : parseDuration [49, 104, 50, 109, 51, 46, 53, 115] = .ok 3723500000000 := by decide                          -- 1h2m3.5s
+
+example : scanUnix .strict (.bytes [49, 55, 48, 48, 48, 48, 48, 48, 48, 48]) = .ok ⟨1700000000, 0⟩ := by decide
+example : ¬ Time.zero.FitsNano := by decide
+example : (⟨1700000000, 5⟩ : Time).FitsNano := by decide
+example : scanInt .strict (.u64 (2 ^ 63)) = .err .other := by decide
 
 /-! ### today's configuration: the property is false (each witness is also the replay on the Go side) -/
 
@@ -355,6 +450,33 @@ theorem witness_byte_wrap : decodeBytes Cfg.today.byte Cfg.today.byteConv [34, 5
   decide
 /-- JsByte: the bare number `12` decodes to the empty list -/
 theorem witness_byte_bare_12 : decodeBytes Cfg.today.byte Cfg.today.byteConv [49, 50] = .ok [] := by decide
+
+/-- JsNanoTime on `time.Time{}` (an unset field): marshals to "-6795364578871345152" and comes back as an instant in
+    1754 with a nil error — the round trip fails outside the int64-nanosecond range, whatever the configuration -/
+theorem witness_nanotime_zero_time :
+    decodeNanoTime Cfg.repaired.nanoTime (encodeNanoTime Time.zero) = .ok ⟨-6795364579, 128654848⟩ := by decide
+/-- … and on 2300-01-01T00:00:00Z, which comes back as an instant in 1715 -/
+theorem witness_nanotime_year_2300 :
+    decodeNanoTime Cfg.repaired.nanoTime (encodeNanoTime ⟨10413792000, 0⟩) = .ok ⟨-8032952074, 290448384⟩ := by decide
+theorem not_nanotime_roundtrip_all_instants :
+    ¬ (∀ t : Time, t.nsec < 1000000000 → decodeNanoTime Cfg.repaired.nanoTime (encodeNanoTime t) = .ok t) := by
+  intro h
+  have := h Time.zero (by decide)
+  rw [witness_nanotime_zero_time] at this
+  exact absurd this (by decide)
+/-- the same wrap through the SQL form of UnixNano2Time -/
+theorem witness_sql_unixnano_zero_time : scanNano .strict (.i64 Time.zero.unixNano) = .ok ⟨-6795364579, 128654848⟩ := by decide
+
+/-- legacy scanners: the decimal text a text-protocol driver delivers is answered with the epoch and a nil error -/
+theorem witness_scan_legacy_text_epoch :
+    scanNano .legacy (.bytes [49, 55, 48, 48, 48, 48, 48, 48, 48, 48]) = .ok ⟨0, 0⟩ := by decide
+/-- … a uint64 above MaxInt64 is wrapped -/
+theorem witness_scan_legacy_uint_wraps : scanInt .legacy (.u64 (2 ^ 63)) = .ok (-(2 ^ 63)) := by decide
+/-- … and UnixStamp.Scan ignores what is not a time -/
+theorem witness_stamp_legacy_ignores : scanStamp .legacy 7 (.i64 5) = .ok 7 := by decide
+theorem not_scan_exact_legacy : ¬ (∀ v ts, scanInt .legacy v = .ok ts → sqlDenotes v ts) := by
+  intro h
+  exact absurd (h (.f64 5) 0 rfl) (by simp [sqlDenotes])
 
 theorem not_denotes_123_2 : ¬ denotes [49, 50, 51] 2 := by
   intro h
